@@ -22,6 +22,12 @@ PROPS_ADD = {
         "technique": "TODO", "rule": "TODO", "level_text": "TODO", "note": "TODO",
         "design_ref": "7/C13", "assumptions": E3_ASSUME,
     },
+    "C14": {
+        "engine": "logsim", "level": "fault_enumeration", "budget": {"quick": 20, "thorough": 600},
+        "title": "Corrupted log and table bytes are never served as valid data",
+        "technique": "TODO", "rule": "TODO", "level_text": "TODO", "note": "TODO",
+        "design_ref": "7/C14", "assumptions": E3_ASSUME,
+    },
     "C15": {
         "engine": "logsim", "level": "fault_enumeration", "budget": {"quick": 20, "thorough": 600},
         "title": "Manifest reload equals in-memory state across rewrites and crashes",
